@@ -12,6 +12,22 @@ func init() {
 	vfHarnesses["VerifH_serveGRPC_stream"] = VerifH_serveGRPC_stream
 }
 
+// vfWrappedStream is what a real stream interceptor hands to the handler: the handler must run on
+// it, not on the transport stream it wraps.
+type vfWrappedStream struct {
+	grpc.ServerStream
+	recvs, sends int
+}
+
+func (w *vfWrappedStream) RecvMsg(m interface{}) error {
+	err := w.ServerStream.RecvMsg(m)
+	if err == nil {
+		w.recvs++
+	}
+	return err
+}
+func (w *vfWrappedStream) SendMsg(m interface{}) error { w.sends++; return w.ServerStream.SendMsg(m) }
+
 type vfStreamLog struct {
 	calls      int
 	method     string
@@ -35,6 +51,7 @@ func VerifH_serveGRPC_stream() {
 	withInterceptor := vfBool()
 	var st *fakeStats
 	ilog := &vfStreamLog{}
+	var wrapped *vfWrappedStream
 	if withStats {
 		st = &fakeStats{}
 		opts = append(opts, StatsOption(st))
@@ -44,7 +61,8 @@ func VerifH_serveGRPC_stream() {
 			ilog.calls++
 			ilog.method = info.FullMethod
 			ilog.clientFlag, ilog.serverFlag = info.IsClientStream, info.IsServerStream
-			return handler(srv, ss)
+			wrapped = &vfWrappedStream{ServerStream: ss}
+			return handler(srv, wrapped)
 		}))
 	}
 	mux, err := NewMux(opts...)
@@ -125,6 +143,7 @@ func VerifH_serveGRPC_stream() {
 	}
 	if withInterceptor {
 		vfCheck(ilog.calls == 1 && ilog.method == "/vf.S/St" && ilog.clientFlag && ilog.serverFlag, "stream interceptor not invoked exactly once with the method name and streaming flags")
+		vfCheck(wrapped != nil && wrapped.recvs == complete && wrapped.sends == j, "the handler did not run on the stream the interceptor passed to it")
 		vfCover("interceptor")
 	}
 	if withStats {
